@@ -438,23 +438,12 @@ def run(ctx) -> None:
     r8.check(okmean,
              "group weight = mean of the member bands' weights × band-selection weight", wa, wa.node,
              "the weight of a degenerate group is not the mean over exactly its bands [ib1, ib2)", stmt="group mean")
-    for where in ((wa, "sea"), (idx.function(DK, "Data_K.get_bands_in_range_groups_ik"), "sea-grid")):
-        g, label = where
-        r8.instance(f"{g.short}: {label} completion")
-        clamp = [s for s in stmts(g.node) if isinstance(s, ast.Assign) and is_name(s.targets[0], "bandmax")
-                 and isinstance(s.value, ast.Call) and call_name(s.value) == "min"]
-        okc = len(clamp) == 1 and any(norm(a).replace(" ", "") == "bands_in_range[0][0]" for a in clamp[0].value.args) \
-            and any(is_name(a, "bandmax") for a in clamp[0].value.args)
-        r8.check(okc, "the filled block ends where the first in-range group starts", g, clamp[0] if clamp else g.node,
-                 f"the fully-occupied block [.., bandmax) is clamped with `{norm1(clamp[0].value) if clamp else '?'}` instead of the "
-                 f"START index of the first in-range group: when that group has more than one band its lower members are counted "
-                 f"twice (cumulative DOS exceeds the number of bands)")
-    clampa = [s for s in stmts(wa.node) if isinstance(s, ast.Assign) and is_name(s.targets[0], "bandmin")
-              and isinstance(s.value, ast.Call) and call_name(s.value) == "max"]
-    r8.instance(f"{wa.short}: anti-sea completion")
-    okc = len(clampa) == 1 and any(norm(a).replace(" ", "") in ("bands_in_range[-1][-1]", "bands_in_range[-1][1]") for a in clampa[0].value.args)
-    r8.check(okc, "the empty block starts where the last in-range group ends", wa, clampa[0] if clampa else wa.node,
-             "the anti-sea block is not clamped with the END index of the last in-range group")
+    from .groups import check_completion_blocks
+    r8.instance(f"{wa.short}: sea / anti-sea completion")
+    check_completion_blocks(r8, idx, wa, want=("sea", "anti"))
+    gk_ = idx.function(DK, "Data_K.get_bands_in_range_groups_ik")
+    r8.instance(f"{gk_.short}: sea-grid completion")
+    check_completion_blocks(r8, idx, gk_, want=("sea",))
     w1 = idx.function(TET, "TetraWeights.weight_1k1b")
     from ..sem import return_cases as _rc
     W1S = Sem(idx, w1)
